@@ -1149,3 +1149,19 @@ FUNCTIONS += [
         decl_ignore=LOCK_DECL,
     ),
 ]
+
+# ----------------------------------------------------------------------------------------------
+# destruction of a mock function's expectation lists (C04): ~expectations, both specialisations
+
+FUNCTIONS += [
+    dict(
+        name='expectations_dtor', cxx='expectations<movable, Sig>::~expectations', file=MOCK, module='ExpectationsDtor',
+        header=r'~expectations\(\)', nth=0,
+        lean_sig=': List Act', acts=True, prologue=['let mut acts : List Act := []'], epilogue='return acts', void_result='acts',
+    ),
+    dict(
+        name='expectations_dtor_nonmovable', cxx='expectations<false, Sig>::~expectations', file=MOCK, module='ExpectationsDtorNonMovable',
+        header=r'~expectations\(\)', nth=1,
+        lean_sig=': List Act', acts=True, prologue=['let mut acts : List Act := []'], epilogue='return acts', void_result='acts',
+    ),
+]
